@@ -20,6 +20,7 @@ from .exceptions import (
     MissingParameters,
     NoSuchParameter,
     MPilotError,
+    RecursiveModelStructure,
 )
 from .params import ResultParameter, ListParameter
 from .parser.parser import Parser, ProgramNode
@@ -261,6 +262,7 @@ class Program(object):
     def run(self):
         # Build dependency lookup
         dependents = {}  # {result_name, [dependent_name, ...], ...}
+        referenced = {}  # {result_name: [referenced_name, ...], ...}
 
         for command in self.commands.values():
             references = []
@@ -282,6 +284,30 @@ class Program(object):
             for reference in references:
                 dependents[reference] = dependents.get(reference, set())
                 dependents[reference].add(command.result_name)
+
+            referenced[command.result_name] = [
+                x.result_name if isinstance(x, Command) else x for x in references
+            ]
+
+        # Reject circular references before anything runs (a cycle has no leaf node, or recurses forever)
+        finished = set()
+        for start in referenced:
+            if start in finished:
+                continue
+            path = [(start, iter(referenced[start]))]
+            on_path = {start}
+            while path:
+                name, remaining = path[-1]
+                reference = next(remaining, None)
+                if reference is None:
+                    finished.add(name)
+                    on_path.discard(name)
+                    path.pop()
+                elif reference in on_path:
+                    raise RecursiveModelStructure(self.commands[reference].lineno)
+                elif reference in referenced and reference not in finished:
+                    path.append((reference, iter(referenced[reference])))
+                    on_path.add(reference)
 
         # Find and run leaf nodes (commands without any dependents)
         for command in (
